@@ -5,5 +5,5 @@ THEOREMS = []
 TRUSTED = []
 ASSUMPTIONS = []
 LEVEL_TEXT = 'Lean theorems: regenerated tables (Fibonacci, factorial, inverse, primes) are correct for every entry; fib2_ui doubling formulas; factorial/binomial small algorithms; Miller-Rabin never rejects a prime. Differential run across every table/algorithm crossover.'
-LEVEL_NOTE = "Probabilistic compositeness (a composite surviving the Miller-Rabin rounds), BPSW below 2^64, the small-k and bdiv binomial algorithms and mpz_mfac_uiui beyond a grid rest on the correspondence with a deterministic oracle."
+LEVEL_NOTE = "Probabilistic compositeness (a composite surviving the Miller-Rabin rounds) and BPSW below 2^64 rest on the correspondence with a deterministic oracle; callees of the bdiv binomial model are taken at their meaning."
 PLACEHOLDER = True
